@@ -1,0 +1,99 @@
+//go:build verif
+
+// Hooks for the /verif machinery.  Built only with `-tags verif`; they add
+// exported access to unexported internals and change no existing behaviour.
+
+package secp256k1
+
+// VerifFieldRaw returns the raw limbs of f.
+func VerifFieldRaw(f *FieldVal) [10]uint32 { return f.n }
+
+// VerifFieldSetRaw sets the raw limbs of f.
+func VerifFieldSetRaw(f *FieldVal, n [10]uint32) { f.n = n }
+
+// VerifScalarRaw returns the raw words of s.
+func VerifScalarRaw(s *ModNScalar) [8]uint32 { return s.n }
+
+// VerifScalarSetRaw sets the raw words of s.
+func VerifScalarSetRaw(s *ModNScalar, n [8]uint32) { s.n = n }
+
+func VerifAddZ1AndZ2EqualsOne(p1, p2, r *JacobianPoint) { addZ1AndZ2EqualsOne(p1, p2, r) }
+func VerifAddZ1EqualsZ2(p1, p2, r *JacobianPoint)       { addZ1EqualsZ2(p1, p2, r) }
+func VerifAddZ2EqualsOne(p1, p2, r *JacobianPoint)      { addZ2EqualsOne(p1, p2, r) }
+func VerifAddGeneric(p1, p2, r *JacobianPoint)          { addGeneric(p1, p2, r) }
+func VerifDoubleZ1EqualsOne(p, r *JacobianPoint)        { doubleZ1EqualsOne(p, r) }
+func VerifDoubleGeneric(p, r *JacobianPoint)            { doubleGeneric(p, r) }
+
+func VerifSplitK(k *ModNScalar) (ModNScalar, ModNScalar) { return splitK(k) }
+
+func VerifMul512Rsh320Round(a, b *ModNScalar) ModNScalar { return mul512Rsh320Round(a, b) }
+
+// VerifNAF returns the positive and negative digit strings of naf(k).
+func VerifNAF(k []byte) (pos, neg []byte) {
+	r := naf(k)
+	return append([]byte(nil), r.Pos()...), append([]byte(nil), r.Neg()...)
+}
+
+func VerifSign(priv, nonce *ModNScalar, hash []byte) (*Signature, bool) {
+	return sign(priv, nonce, hash)
+}
+
+func VerifFieldToModNScalar(v *FieldVal) (ModNScalar, uint32) { return fieldToModNScalar(v) }
+func VerifModNScalarToField(v *ModNScalar) FieldVal           { return modNScalarToField(v) }
+func VerifIsOnCurve(x, y *FieldVal) bool                      { return isOnCurve(x, y) }
+
+func VerifOverflows(s *ModNScalar) uint32    { return s.overflows() }
+func VerifReduce256(s *ModNScalar, o uint32) { s.reduce256(o) }
+func VerifReduce385(s *ModNScalar, t [13]uint64) {
+	s.reduce385(t[0], t[1], t[2], t[3], t[4], t[5], t[6], t[7], t[8], t[9], t[10], t[11], t[12])
+}
+func VerifReduce512(s *ModNScalar, t [16]uint64) {
+	s.reduce512(t[0], t[1], t[2], t[3], t[4], t[5], t[6], t[7], t[8], t[9], t[10], t[11], t[12], t[13], t[14], t[15])
+}
+
+// VerifAcc96 runs a sequence of Add operations on a fresh accumulator.
+func VerifAcc96(init [3]uint32, adds []uint64) [3]uint32 {
+	a := accumulator96{n: init}
+	for _, v := range adds {
+		a.Add(v)
+	}
+	return a.n
+}
+
+func VerifCT(op int, a, b uint32) uint32 {
+	switch op {
+	case 0:
+		return constantTimeEq(a, b)
+	case 1:
+		return constantTimeNotEq(a, b)
+	case 2:
+		return constantTimeLess(a, b)
+	case 3:
+		return constantTimeLessOrEq(a, b)
+	case 4:
+		return constantTimeGreater(a, b)
+	case 5:
+		return constantTimeGreaterOrEq(a, b)
+	default:
+		return constantTimeMin(a, b)
+	}
+}
+
+// VerifHMAC wraps the resettable hmacsha256 object used by NonceRFC6979.
+type VerifHMAC struct{ h *hmacsha256 }
+
+func VerifNewHMAC(key []byte) *VerifHMAC { return &VerifHMAC{newHMACSHA256(key)} }
+func (v *VerifHMAC) Write(p []byte)      { v.h.Write(p) }
+func (v *VerifHMAC) ResetKey(key []byte) { v.h.ResetKey(key) }
+func (v *VerifHMAC) Reset()              { v.h.Reset() }
+func (v *VerifHMAC) Sum() []byte         { return v.h.Sum() }
+
+// VerifBytePoints returns the decoded base-point table (read-only).
+func VerifBytePoints() *[32][256]JacobianPoint {
+	return (*[32][256]JacobianPoint)(s256BytePoints())
+}
+
+// VerifEndoConsts returns the endomorphism constants.
+func VerifEndoConsts() (negLambda, negB1, negB2, z1, z2 ModNScalar, beta FieldVal) {
+	return *endoNegLambda, *endoNegB1, *endoNegB2, *endoZ1, *endoZ2, *endoBeta
+}
